@@ -423,6 +423,25 @@ def _txn(c, op, ctx):
     if 'retry' in op:
         kw['retry'] = op['retry']
     exc_type = BlockAbortBase if op.get('raise_kind') == 'base' else BlockAbort
+    if op.get('style') == 'decorated':
+        # the block as a function decorated ONCE with transact(...) that calls itself for every further step (a recursive
+        # helper, mutually calling functions under one decorator object): the outermost call is the block
+        deco = c.transact(**kw)
+
+        @deco
+        def level(i):
+            if raise_at is not None and i == raise_at:
+                raise exc_type()
+            if i < len(body):
+                results.append(run_op(c, body[i], ctx))
+                level(i + 1)
+            elif raise_at is not None and raise_at >= len(body):
+                raise exc_type()
+        try:
+            level(0)
+        except (BlockAbort, BlockAbortBase):
+            return 'abort:' + json.dumps(results)
+        return 'commit:' + json.dumps(results)
     try:
         with c.transact(**kw):
             for i, sub in enumerate(body):
